@@ -7,6 +7,7 @@ clock.
 """
 import gc
 import hashlib
+import os
 import random
 from collections import Counter
 
@@ -26,6 +27,25 @@ def stream(seed, name):
 
 def run_seed(base_seed, prop, index):
     return mix("run", base_seed, prop, index)
+
+
+# Search depth: 0 = quick tier sizes; 1 = thorough tier (the generators then also
+# draw from larger pools, longer histories, more handlers).  Part of what a run
+# index means, therefore handed to every child interpreter through the
+# environment (SIMTRAITS_DEPTH); replay files carry the whole trace and do not
+# depend on it.
+DEPTH = int(os.environ.get("SIMTRAITS_DEPTH", "0") or 0)
+
+
+def set_depth(d):
+    global DEPTH
+    DEPTH = int(d)
+    os.environ["SIMTRAITS_DEPTH"] = str(DEPTH)
+
+
+def deep(r, quick, extra):
+    """r.choice over the quick-tier values, plus the extra ones at depth 1."""
+    return r.choice(list(quick) + (list(extra) if DEPTH else []))
 
 
 # --------------------------------------------------------------------------
